@@ -89,13 +89,26 @@ Print Assumptions zero_dy_shortcut_sound_single_measurement.
 (* zero_dy_shortcut for tapes WITH a shot vector (sum over the shot copies) is covered by the correspondence
    run only, not by a theorem. *)
 
-(* REFUTED clause: jvp()'s zero-tangent shortcut ignores the shot vector: there is a tape with a shot vector and an
-   all-zero tangent for which the shortcut result differs from the contraction path (one entry per shot copy). *)
-Theorem jvp_zero_tangent_shortcut_shots_refuted :
-  exists t tg g results, tp_k t <> O /\ partitioned t = true /\ forallb (Z.eqb 0) tg = true /\
-    snd (jvp_tape t tg g) results <> jvp_proc t tg g results.
-Proof. exact jvp_zero_shortcut_shots_counterexample. Qed.
-Print Assumptions jvp_zero_tangent_shortcut_shots_refuted.
+(* jvp(): the all-zero-tangent shortcut returns exactly what the contraction path returns, for a tape with a shot
+   vector (one zero result per shot copy; shots_rows = the Jacobian rows of every shot copy) and without one.
+   Stated for single-measurement tapes of any dimension d (d = 0: scalar measurement); several measurements
+   per tape are covered by the correspondence run. *)
+Theorem zero_tangent_shortcut_sound_shot_vector : forall t g results d tg shots_rows,
+  tp_k t <> O -> tp_meas t = [d] -> partitioned t = true ->
+  Forall (eq 0) tg -> length tg = tp_k t ->
+  length shots_rows = tp_shots t -> Forall (wf_rows (tp_k t) d) shots_rows ->
+  snd g results = VTup (map (enc_jrows d) shots_rows) ->
+  snd (jvp_tape t tg g) results = jvp_proc t tg g results.
+Proof. exact zero_tangent_shortcut_shots. Qed.
+Print Assumptions zero_tangent_shortcut_sound_shot_vector.
+
+Theorem zero_tangent_shortcut_sound : forall t g results d tg rows,
+  tp_k t <> O -> tp_meas t = [d] -> partitioned t = false ->
+  Forall (eq 0) tg -> length tg = tp_k t -> wf_rows (tp_k t) d rows ->
+  snd g results = enc_jrows d rows ->
+  snd (jvp_tape t tg g) results = jvp_proc t tg g results.
+Proof. exact zero_tangent_shortcut_noshots. Qed.
+Print Assumptions zero_tangent_shortcut_sound.
 
 (* batch processing: tape t receives results[offset_t : offset_t + n_t]; `append` keeps one entry per tape in
    tape order; `extend` concatenates the iterated entries in tape order (None tapes are skipped); any exception
@@ -142,3 +155,11 @@ Example batch_instance :
   batch_loop false fs [7; 8; 9] [] = Ok (VTup [VT (T1 [7]); VNone; VT (T1 [8; 9])]) /\
   batch_loop true fs [7; 8; 9] [] = Ok (VTup [VT (T0 7); VT (T0 8); VT (T0 9)]).
 Proof. split; vm_compute; reflexivity. Qed.
+
+Example zero_tangent_shots_instance :
+  let t := Build_tape 2 [2%nat] 3 in
+  let rows := [[1; 2]; [3; 4]] in
+  partitioned t = true /\ Forall (wf_rows (tp_k t) 2) [rows; rows; rows] /\
+  snd (jvp_tape t [0; 0] (1%nat, fun _ => VTup (map (enc_jrows 2) [rows; rows; rows]))) [1]
+  = Ok (VTup [VT (T1 [0; 0]); VT (T1 [0; 0]); VT (T1 [0; 0])]).
+Proof. cbn zeta. repeat split; try reflexivity; repeat constructor. Qed.
